@@ -381,6 +381,57 @@ func checkC09(w *World, c *Check, tier string) {
 		}
 	}
 
+	// ---- verdict sources: ItemsEqual says "equal" only on the word of a comparison it dispatches to (an Equals method,
+	// the id comparison, the link comparison) or because both operands are nil-like. A constant true returned under any
+	// other condition — "this Tombstone replaces that object" — makes values of different types, or with different
+	// properties, equal ----
+	{
+		nT := 0
+		for _, rb := range returnBlocks(itemsEqual) {
+			ret := rb.Instrs[len(rb.Instrs)-1].(*ssa.Return)
+			if len(ret.Results) != 1 {
+				continue
+			}
+			for _, leaf := range phiLeaves(ret.Results[0]) {
+				k, isC := leaf.(*ssa.Const)
+				if !isC || k.Value == nil || k.Value.Kind() != constant.Bool || !constant.BoolVal(k.Value) {
+					continue
+				}
+				nT++
+				// allowed only under nil-ness tests of the operands
+				okNil := true
+				blocks := []*ssa.BasicBlock{rb}
+				if phi, isPhi := ret.Results[0].(*ssa.Phi); isPhi {
+					blocks = nil
+					for ei, e := range phi.Edges {
+						if e == leaf {
+							blocks = append(blocks, phi.Block().Preds[ei])
+						}
+					}
+				}
+				for _, b := range blocks {
+					for _, g := range rawGuards(b) {
+						call, isCall := g.cond.(*ssa.Call)
+						if !isCall || !(calleeNamed(call, "IsNil") || calleeNamed(call, "IsNotNil")) {
+							okNil = false
+						}
+					}
+					if br, isIf := b.Instrs[len(b.Instrs)-1].(*ssa.If); isIf {
+						if call, isCall := br.Cond.(*ssa.Call); !isCall || !calleeNamed(call, "IsNil") {
+							okNil = false
+						}
+					}
+				}
+				key := fmt.Sprintf("ItemsEqual:constant-true#%d", nT)
+				if okNil {
+					c.ok("C09.dispatch", key, w.InstrPos(ret), "only for two nil-like operands")
+				} else {
+					c.bad("C09.dispatch", key, w.InstrPos(ret), "ItemsEqual returns the constant true under a condition that is not the nil-ness of its operands: the verdict 'equal' must come from a comparison of ids / properties, otherwise items of different types or with different properties compare equal")
+				}
+			}
+		}
+	}
+
 	// ---- setloop ----
 	checkSetLoops(w, c, "C09.setloop", []string{"NaturalLanguageValues", "ItemCollection", "IRIs"})
 
